@@ -329,7 +329,7 @@ class Check(core.PropertyCheck):
 
     def model_constants(self, tier):
         base = {"Protos": frozenset({"tcp", "udp"}), "PreOpen": frozenset({True, False}), "MaxInject": 1,
-                "EditOffset": EDIT_OFFSET}
+                "EditOffset": EDIT_OFFSET, "InjectGuard": True}
         if tier == "quick":
             return base | {"MaxMsgs": 2, "Edits": frozenset({"keep", "edit"})}
         if tier == "dumped":
